@@ -367,8 +367,11 @@ def errOf {α β} : Res α → Res β
   | .unmodelled => .unmodelled
 
 mutual
-/-- `unmarshal(buf, t, path)` on the token tree of `buf` -/
-def unmarshal (env : JEnv) : Json → Ty → Res Value
+/-- `unmarshal(buf, t, path)` on the token tree of `buf`; `top` = "`path` is empty"
+(true for the call made by `Unmarshal`, false for every element call).  The only use of
+it: `unmarshalTuple` reports a tuple that is too short with `path[:len(path)-1]`, which
+is a slice-bounds panic when `path` is empty. -/
+def unmarshal (env : JEnv) (top : Bool) : Json → Ty → Res Value
   | .null, t => .ok ⟨t, .null⟩
   | .obj ks vs, .dyn =>
     -- unmarshalDynamic
@@ -399,7 +402,9 @@ def unmarshal (env : JEnv) : Json → Ty → Res Value
   | .arr xs, .tuple es =>
     match unmarshalZip env xs es with
     | .ok vals =>
-      if vals.length != es.length then .err "not enough tuple elements" else .ok (tupleVal vals)
+      if vals.length != es.length then
+        (if top then .panic "slice bounds out of range [:-1]" else .err "not enough tuple elements")
+      else .ok (tupleVal vals)
     | r => errOf r
   | _, .tuple _ => .err "missing expected ["
   | .obj ks vs, .object ns ts os =>
@@ -415,7 +420,7 @@ def unmarshal (env : JEnv) : Json → Ty → Res Value
 def unmarshalAll (env : JEnv) : List Json → Ty → Res (List Value)
   | [], _ => .ok []
   | j :: js, e =>
-    match unmarshal env j e with
+    match unmarshal env false j e with
     | .ok v =>
       match unmarshalAll env js e with
       | .ok vs => .ok (v :: vs)
@@ -427,7 +432,7 @@ def unmarshalZip (env : JEnv) : List Json → List Ty → Res (List Value)
   | [], _ => .ok []
   | _ :: _, [] => .err "too many tuple elements"
   | j :: js, e :: es =>
-    match unmarshal env j e with
+    match unmarshal env false j e with
     | .ok v =>
       match unmarshalZip env js es with
       | .ok vs => .ok (v :: vs)
@@ -439,7 +444,7 @@ def unmarshalAttrs (env : JEnv) : List String → List Json → List String → 
     match Ty.find k ns ts os with
     | none => .err "unsupported attribute"
     | some (aty, _) =>
-      match unmarshal env j aty with
+      match unmarshal env false j aty with
       | .ok v =>
         match unmarshalAttrs env ks js ns ts os with
         | .ok vs => .ok (v :: vs)
@@ -451,7 +456,7 @@ def dynValue (env : JEnv) : List String → List Json → Ty → Option (Res Val
   | k :: ks, j :: js, t =>
     match dynValue env ks js t with
     | some r => some r
-    | none => if k = "value" then some (unmarshal env j t) else none
+    | none => if k = "value" then some (unmarshal env true j t) else none
   | _, _, _ => none
 end
 
@@ -515,7 +520,7 @@ def simpleMarshal (env : JEnv) (v : Value) : Res Json := marshalTop env v v.ty
 /-- `SimpleJSONValue.UnmarshalJSON` -/
 def simpleUnmarshal (env : JEnv) (j : Json) : Res Value :=
   match impliedType env j with
-  | .ok t => unmarshal env j t
+  | .ok t => unmarshal env true j t
   | r => errOf r
 
 end JsonVal
